@@ -31,6 +31,22 @@ C['C18'] = dict(cat='model_checking', tech="explicit exhaustive exploration of e
     text="All server lists up to length 5 (quick) / 6 (thorough) over 4 entries, as comma list, server file and discovery module with 5 filters; every outcome of every random draw of the shuffle is explored (complete tree); oracle: returned multiset == distinct matching entries.",
     ref="DESIGN.md 3.3, 4 (C18)")
 
+C['C01'] = dict(cat='exploration', tech=BE,
+    text="Every file content of <=3/<=4 tokens over 16 byte tokens (0x00, the wire delimiter 0xAC alone and inside UTF-8 characters, 0xFF, leading '.', '|', ';', CR, runs around MaxLineLength), gzip/zstd encodings, and a long-line family around MaxLineLength and the 32 KiB transport buffer, each run through the real dcat main body (serverless) and compared byte for byte with the statement's reference (newline inserted after every MaxLineLength non-newline bytes).",
+    ref="DESIGN.md 3.3, 4 (C01)")
+C['C02'] = dict(cat='model_checking', tech=MC,
+    text="All schedules within a deviation bound (quick d<=2, thorough d<=2 on a larger scenario set; deviations = preemption, non-first ready select case, goroutine demotion) of complete dcat/dgrep sessions (real client main body, serverless connector, server handler, readers, client handler) over 1-3 files, with queueing behind the cat limit and consumer stalls of 50 ms..6 s; oracle: per file exactly its selected lines once and in order, exit status 0, termination.",
+    ref="DESIGN.md 3.1, 3.2, 4 (C02)")
+C['C04'] = dict(cat='model_checking', tech=MC,
+    text="All schedules within a deviation bound (quick d<=2, thorough d<=3) of the real TailFile reader following a real file while a writer appends 1-3 lines in every composition into write() calls and a consumer receives; file opens/reads/writes are scheduling points; oracle relative to the offset at which the follow began: exactly the complete appended lines, once, in order; gaps only with a full queue and then TransmittedPerc < 100.",
+    ref="DESIGN.md 3.1, 3.2, 4 (C04)")
+C['C05'] = dict(cat='exploration', tech=BE + "; differential oracle (partitioned run vs trivial partition of the same real code)",
+    text="Every table of <=2/<=3 log lines over 6-8 shapes per format x every assignment of lines to (server, file, interval) cells x ~150 queries, through the real server aggregator, client mapr handler, global group set and CSV writer; result must equal the central evaluation.",
+    ref="DESIGN.md 3.3, 4 (C05)")
+C['C07'] = dict(cat='model_checking', tech=MC,
+    text="All schedules within a deviation bound (quick d<=1, thorough d<=2) of a non-plain dcat session over 1-3 in-process servers x 1-2 files x 1-2 lines (plus 40000/70000-byte lines spanning several transport reads), the stdout logger's lock included as branching point; oracle: every output line is one whole correctly attributed REMOTE record, per source gap-free increasing line numbers.",
+    ref="DESIGN.md 3.1, 3.2, 4 (C07)")
+
 PENDING = "check not built yet in this session (work in progress; see DESIGN.md section 4)"
 checks = []
 for pid in sorted(C):
